@@ -108,15 +108,18 @@ class Instances(object):
 
     def parser(self, d):
         if d not in self.parsers:
-            from pysmi.parser import dialect
-            from pysmi.parser.smi import parserFactory
+            # the classes the package exports for the three dialects (what applications and the scripts instantiate)
+            import importlib
+            mod, cls = {'smiV2': ('pysmi.parser.smiv2', 'SmiV2Parser'), 'smiV1': ('pysmi.parser.smiv1', 'SmiV1Parser'),
+                        'smiV1Relaxed': ('pysmi.parser.smiv1compat', 'SmiV1CompatParser')}[d]
+            klass = getattr(importlib.import_module(mod), cls)
             if self.is_fresh:
                 # reference objects only: PLY loads the LALR tables of the default dialect from a table module
                 # generated once per process instead of recomputing them (2 ms instead of 160 ms per parser)
                 with fast_tables():
-                    self.parsers[d] = parserFactory(**getattr(dialect, d))()
+                    self.parsers[d] = klass()
             else:
-                self.parsers[d] = parserFactory(**getattr(dialect, d))()
+                self.parsers[d] = klass()
         return self.parsers[d]
 
     def compiler(self, kind, d='smiV1Relaxed'):
